@@ -105,6 +105,11 @@ func listModulePkgs(dir string) ([]string, error) {
 	return res, nil
 }
 
+// Overlay, when non-nil, replaces source files (absolute path -> contents) for
+// the load. Used only by the self-test (reference mutants analysed in memory;
+// /repo is never modified).
+var Overlay map[string][]byte
+
 // Load loads and builds the program. Any type error inside scope is an error.
 func Load(dir string, tier Tier) (*Program, error) {
 	p := &Program{Dir: dir, Tier: tier, Fset: token.NewFileSet(), PkgByID: map[string]*packages.Package{}, modPaths: map[string]bool{}}
@@ -118,7 +123,7 @@ func Load(dir string, tier Tier) (*Program, error) {
 	for _, m := range mods {
 		p.modPaths[m] = true
 	}
-	cfg := &packages.Config{Dir: dir, Fset: p.Fset, Env: env(), Tests: false}
+	cfg := &packages.Config{Dir: dir, Fset: p.Fset, Env: env(), Tests: false, Overlay: Overlay}
 	var initial []*packages.Package
 	if tier == Quick {
 		cfg.Mode = packages.LoadSyntax | packages.NeedModule
